@@ -7,7 +7,7 @@
 From Coq Require Import List NArith Bool Sorting.Sorted.
 From V Require Proofs.ExprsTie2.   (* expressions of cube.rs / ecube.rs / bdd.rs / canonization.rs, regenerated from the Rust source, equal the model's *)
 From V Require Proofs.ExprsTie4.   (* the bodies of sop.rs / esop.rs / soes.rs (and the remaining functions of cube.rs / ecube.rs), regenerated from the Rust source, equal the model's *)
-From V Require Import Checkers.Check Proofs.CheckSoundCube.   (* the extracted checkers and their soundness proofs, pinned at the end of this file *)
+From V Require Import Checkers.Check Proofs.CheckSoundCube Proofs.CheckSoundEq.   (* the extracted checkers and their soundness proofs, pinned at the end of this file *)
 From V Require Import Base.Res Model.Kernels Model.TwoLevel Spec.Bfun Proofs.CubeProofs.
 Import ListNotations.
 Open Scope N_scope.
@@ -272,3 +272,53 @@ Print Assumptions C12_checker_cube_implies_iff.
 Print Assumptions C12_checker_cube_implies_sem.
 Print Assumptions C12_checker_cube_implies_lut_iff.
 Print Assumptions C12_checker_text_cube.
+
+(* ---- every contradictory result is the one canonical zero cube, so cube equality is semantic equality: the checker of
+   "a == b holds exactly when a and b evaluate alike on every assignment" (masks within 32 bits; the structural
+   equality of the model passes on canonical cubes) *)
+Theorem C12_checker_cube_sem_eqb_iff : forall a b,
+  c32 a -> c32 b -> (cube_sem_eqb a b = true <-> forall m, cube_value a m = cube_value b m).
+Proof. exact CheckSoundEq.cube_sem_eqb_iff. Qed.
+
+Theorem C12_checker_cube_sem_eqb_iff_32 : forall a b,
+  c32 a -> c32 b -> (cube_sem_eqb a b = true <-> forall m, m < 2 ^ 32 -> cube_value a m = cube_value b m).
+Proof. exact CheckSoundEq.cube_sem_eqb_iff_32. Qed.
+
+Theorem C12_checker_cube_sem_eqb_normalize : forall a b,
+  cube_sem_eqb a b = cube_eqb (cube_normalize a) (cube_normalize b).
+Proof. exact CheckSoundEq.cube_sem_eqb_normalize. Qed.
+
+Theorem C12_checker_cube_eq_iff : forall a b r,
+  c32 a -> c32 b -> (chk_cube_eq a b r = true <-> (r = true <-> forall m, cube_value a m = cube_value b m)).
+Proof. exact CheckSoundEq.chk_cube_eq_iff. Qed.
+
+Theorem C12_checker_cube_eq_iff_32 : forall a b r,
+  c32 a -> c32 b ->
+  (chk_cube_eq a b r = true <-> (r = true <-> forall m, m < 2 ^ 32 -> cube_value a m = cube_value b m)).
+Proof. exact CheckSoundEq.chk_cube_eq_iff_32. Qed.
+
+Theorem C12_checker_cube_eq_within : forall k a b r,
+  (k <= 32)%nat -> cube_within k a = true -> cube_within k b = true ->
+  (chk_cube_eq a b r = true <-> (r = true <-> forall m, cube_value a m = cube_value b m)).
+Proof. exact CheckSoundEq.chk_cube_eq_within. Qed.
+
+Theorem C12_checker_cube_eq_model : forall a b,
+  c32 a -> c32 b -> canon a -> canon b -> chk_cube_eq a b (cube_eqb a b) = true.
+Proof. exact CheckSoundEq.chk_cube_eq_model. Qed.
+
+Example C12_checker_cube_sem_eqb_needs_c32 :
+  cube_sem_eqb (mkCube (2 ^ 32) 0) cube_zero = false /\
+  (forall m, cube_value (mkCube (2 ^ 32) 0) m = cube_value cube_zero m).
+Proof. exact CheckSoundEq.cube_sem_eqb_needs_c32. Qed.
+
+Example C12_checker_cube_eq_model_needs_canon :
+  c32 (mkCube 1 1) /\ chk_cube_eq (mkCube 1 1) cube_zero (cube_eqb (mkCube 1 1) cube_zero) = false.
+Proof. exact CheckSoundEq.chk_cube_eq_model_needs_canon. Qed.
+
+Print Assumptions C12_checker_cube_sem_eqb_iff.
+Print Assumptions C12_checker_cube_sem_eqb_iff_32.
+Print Assumptions C12_checker_cube_sem_eqb_normalize.
+Print Assumptions C12_checker_cube_eq_iff.
+Print Assumptions C12_checker_cube_eq_iff_32.
+Print Assumptions C12_checker_cube_eq_within.
+Print Assumptions C12_checker_cube_eq_model.
